@@ -46,6 +46,8 @@ type modelConn struct {
 	m        *common.Model
 	pseudoRE *regexp.Regexp
 	supplied int
+	rounds   int
+	reasked  int
 }
 
 func hx(s string) string { return common.Hex([]byte(s)) }
@@ -102,7 +104,9 @@ func (mc *modelConn) ask(reqs []string) ([]string, error) {
 			fh.Close()
 		}
 	}
+	ta := time.Now()
 	ans, err := mc.m.Ask(reqs)
+	tFirst += time.Since(ta)
 	if err != nil {
 		return ans, err
 	}
@@ -123,12 +127,24 @@ func (mc *modelConn) ask(reqs []string) ([]string, error) {
 			return ans, nil
 		}
 		mc.supplied += len(sup)
+		mc.rounds++
+		mc.reasked += len(idx)
 		var again []string
 		again = append(again, sup...)
 		for _, i := range idx {
 			again = append(again, reqs[i])
 		}
+		if d := os.Getenv("PROXY_DUMP_MODEL_REQUESTS"); d != "" {
+			if fh, err := os.OpenFile(d, os.O_APPEND|os.O_CREATE|os.O_WRONLY, 0o644); err == nil {
+				for _, q := range again {
+					fmt.Fprintln(fh, q)
+				}
+				fh.Close()
+			}
+		}
+		tb := time.Now()
 		a2, err := mc.m.Ask(again)
+		tRounds += time.Since(tb)
 		if err != nil {
 			return ans, err
 		}
@@ -529,22 +545,22 @@ func (td *TestDir) requests(r *common.RNG, tier string) []request {
 			}
 		}
 		// unknown version of a known module, unknown extension of a stored version
-		for _, v := range []string{"v1.99.0", "v0.0.0-20990101000000-abcdef123456", m.Vers + "x", "v7.0.0+incompatible"} {
-			if td.stored(m.Path, v) == nil {
+		for vi, v := range []string{"v1.99.0", "v0.0.0-20990101000000-abcdef123456", m.Vers + "x", "v7.0.0+incompatible"} {
+			if td.stored(m.Path, v) == nil && (tier == "thorough" || (vi+i)%2 == 0) {
 				if u, ok := fileURL(m.Path, v, common.Pick(r, []string{"info", "mod", "zip"})); ok {
 					rs = append(rs, request{URL: u, Class: "unknown-version"})
 				}
 			}
 		}
-		for _, e := range []string{"ziphash", "txt", "Info", "", "zip2", "mod.bak"} {
-			if u, ok := fileURL(m.Path, m.Vers, e); ok {
+		for ei, e := range []string{"ziphash", "txt", "Info", "", "zip2", "mod.bak"} {
+			if u, ok := fileURL(m.Path, m.Vers, e); ok && (tier == "thorough" || (ei+i)%3 == 0) {
 				// ".mod.bak": the extension is "bak"; "" : trailing dot
 				rs = append(rs, request{URL: u, Class: "unknown-ext"})
 			}
 		}
 		// commit-hash requests (resolved through pseudo-version suffixes and .info Short fields)
 		hs := []string{"abcdef123456", "abcdef", "abc", "a", "0123456789ab", "deadbeefcafe", "deadbeefcafe00ff", "ffffffffffff", "fff", "0", "0123456789abcdef"}
-		for k := 0; k < 3; k++ {
+		for k := 0; k < 2; k++ {
 			h := common.Pick(r, hs)
 			rs = append(rs, request{URL: "/mod/" + must(escPath(m.Path)) + "/@v/" + h + "." + common.Pick(r, []string{"info", "mod", "zip"}), Class: "hash"})
 		}
@@ -612,6 +628,7 @@ func parent(p string) string {
 
 // ---------------------------------------------------------------- one directory
 
+var tFirst, tRounds time.Duration
 var tModel, tSeq, tConc, tE2E, tDisk time.Duration
 
 type runner struct {
@@ -676,6 +693,11 @@ func (rn *runner) evalDir(td *TestDir, seed uint64, onlyURL string, report bool)
 	}
 
 	// ---- model: server start and the module list
+	// (the directory and its module list first, so that the oracle entries readModList needs are
+	// supplied once and not once per request)
+	if _, err := rn.mc.ask([]string{dreq, "modlist"}); err != nil {
+		rn.res.Notes = append(rn.res.Notes, "model error: "+err.Error())
+	}
 	mreqs := []string{dreq, "modlist"}
 	for _, q := range reqs {
 		mreqs = append(mreqs, "req "+hx(q.URL))
@@ -689,6 +711,29 @@ func (rn *runner) evalDir(td *TestDir, seed uint64, onlyURL string, report bool)
 		return 1
 	}
 	modelStarts := mans[1] != "err"
+	// the sequential phase runs on ONE server: the model's answers for it are those of one server
+	// answering the requests in the same order (the zip cache keeps the first caller's value, which
+	// matters when two names alias one archive, i.e. with "_"); [mans] (fresh server per request)
+	// is what the concurrent phase and the clean directories are compared with.
+	seqAns := make([]string, len(reqs))
+	if modelStarts {
+		var us []string
+		for _, q := range reqs {
+			if sendable(q.URL) {
+				us = append(us, hx(q.URL))
+			}
+		}
+		t0 = time.Now()
+		parts := strings.Split(rn.mc.ask1("seq "+strings.Join(us, " ")), " | ")
+		tModel += time.Since(t0)
+		k := 0
+		for i, q := range reqs {
+			if sendable(q.URL) && k < len(parts) {
+				seqAns[i] = parts[k]
+				k++
+			}
+		}
+	}
 
 	// ---- implementation: a fresh server
 	srv, err := goproxytest.NewServer(root, "127.0.0.1:0")
@@ -738,8 +783,14 @@ func (rn *runner) evalDir(td *TestDir, seed uint64, onlyURL string, report bool)
 			rn.res.Count("outcome:" + q.Class + ":" + strings.SplitN(ob, " ", 2)[0])
 			rn.res.Case(fmt.Sprintf("%d|%s|%s", rn.ndir, q.URL, ob), !strings.HasPrefix(ob, "404") || q.Class != "malformed")
 		}
-		if modelStarts && ob != mans[2+i] && impl[i].Err == "" {
-			fail("correspondence", "response:"+q.Class, q.URL, clip([]byte(mans[2+i])), clip([]byte(ob)), "model response and HTTP response differ")
+		if modelStarts && ob != seqAns[i] && impl[i].Err == "" {
+			fail("correspondence", "response:"+q.Class, q.URL, clip([]byte(seqAns[i])), clip([]byte(ob)), "model response (one server, same request order) and HTTP response differ")
+		}
+		if modelStarts && td.Clean && seqAns[i] != mans[2+i] {
+			fail("correspondence", "history-independent:"+q.Class, q.URL, clip([]byte(seqAns[i])), clip([]byte(mans[2+i])), "in a clean directory the model's response depends on earlier requests (Model = after the earlier requests, Impl = fresh server)")
+		}
+		if report && modelStarts && seqAns[i] != mans[2+i] {
+			rn.res.Count("history-dependent-response(aliasing)")
 		}
 		if impl[i].Err != "" {
 			if report {
@@ -1146,9 +1197,9 @@ func main() {
 	t3 := time.Now()
 	rn.goModDownload(all, nE2E)
 	tE2E = time.Since(t3)
-	res.Notes = append(res.Notes, fmt.Sprintf("time: model %.1fs, sequential HTTP %.1fs, concurrent HTTP %.1fs, go mod download %.1fs", tModel.Seconds(), tSeq.Seconds(), tConc.Seconds(), tE2E.Seconds()))
+	res.Notes = append(res.Notes, fmt.Sprintf("time: model %.1fs (first pass %.1fs, oracle rounds %.1fs), sequential HTTP %.1fs, concurrent HTTP %.1fs, go mod download %.1fs", tModel.Seconds(), tFirst.Seconds(), tRounds.Seconds(), tSeq.Seconds(), tConc.Seconds(), tE2E.Seconds()))
 
-	res.Notes = append(res.Notes, fmt.Sprintf("%d oracle-table entries supplied to the model on demand (x/mod CheckPath, checkElem, Check, semver.IsValid/Compare, pseudoVersionRE, json Short)", mc.supplied),
+	res.Notes = append(res.Notes, fmt.Sprintf("%d oracle-table entries supplied to the model on demand in %d rounds, %d requests re-asked (x/mod CheckPath, checkElem, Check, semver.IsValid/Compare, pseudoVersionRE, json Short)", mc.supplied, mc.rounds, mc.reasked),
 		"module paths and versions containing \"_\" are excluded from the direct oracles (ambiguous on-disk naming); such directories are compared with the model only")
 	res.Rule = fmt.Sprintf("corpus, /repo's testdata/mod, %d clean generated module directories (1-3 modules x 1-4 versions: upper-case and nested paths, major suffixes, gopkg.in; semver, prerelease, pseudo, +incompatible, mismatching and invalid versions; .txt/.txtar/directory layouts; .info/.mod present or missing, nested, dot and empty files) and %d directories outside the naming discipline (two layouts at once, versions without v, underscores, undecodable names, wrong entry kinds, hand-written archives), each served by a real goproxytest.Server; per directory: list/info/mod/zip of every stored version, unknown modules/versions/extensions, a third of %d fixed malformed URLs (all in thorough), commit-hash requests, mutated URLs, then 16 concurrent first requests for each of up to 5 URLs (16 in thorough) on a fresh server and one random interleaving of the model's handlers; %d escape/unescape strings against x/mod; a case is one HTTP request (non-trivial unless a fixed malformed URL answered 404); distinct = distinct (directory, URL, response)", nClean, nOdd, len(malformed), nEsc)
 	res.Write(f.Out)
